@@ -243,6 +243,7 @@ class World:
         self.torn_files = set()
         self.next_resp = None
         self.served = []  # (txid, bytes or exception name)
+        self.broadcasts = []
         self.accepted_honest = {}
 
     # -- the urlopen seam
@@ -258,6 +259,7 @@ class World:
         tr.probe("server_hits")
         if req.data is not None:
             tr.ev("server", "broadcast", len(req.data))
+            self.broadcasts.append((net, bytes(req.data)))
             return FakeResponse(b"ok")
         parts = path.strip("/").split("/")
         txid = parts[1] if len(parts) >= 3 and parts[0] == "tx" else None
@@ -378,6 +380,42 @@ def execute(plan, prop, trace):
         if not had_open:
             del btx.open
         TxFetcher.cache = saved_cache
+
+
+def script_commands(raw):
+    """canonical script bytes -> command list for the Script constructor (ints for opcodes, bytes for pushed data)"""
+    cmds = []
+    p = 0
+    while p < len(raw):
+        op = raw[p]
+        if 1 <= op <= 75:
+            cmds.append(raw[p + 1 : p + 1 + op])
+            p += 1 + op
+        elif op == 0x4C:
+            n = raw[p + 1]
+            cmds.append(raw[p + 2 : p + 2 + n])
+            p += 2 + n
+        elif op == 0x4D:
+            n = int.from_bytes(raw[p + 1 : p + 3], "little")
+            cmds.append(raw[p + 3 : p + 3 + n])
+            p += 3 + n
+        else:
+            cmds.append(op)
+            p += 1
+    return cmds
+
+
+def build_through_api(mt, segwit):
+    from buidl.witness import Witness
+
+    tx_ins = []
+    for i in mt["ins"]:
+        ti = TxIn(i["txid"], i["vout"], Script(script_commands(i["script_sig"])), i["sequence"])
+        if segwit:
+            ti.witness = Witness(list(i["witness"]))
+        tx_ins.append(ti)
+    tx_outs = [TxOut(o["amount"], Script(script_commands(o["spk"]))) for o in mt["outs"]]
+    return Tx(mt["version"], tx_ins, tx_outs, mt["locktime"], network="mainnet", segwit=segwit)
 
 
 def compare_fields(r, tx, where):
@@ -552,10 +590,43 @@ def _execute(plan, w, tr):
             w.check_cache("after load_cache")
             tr.state("load", out.split(":")[0], name in w.torn_files)
         elif op == "broadcast":
+            # a transaction built through the API (constructors, no parsing), serialised, sent to the explorer, which parses it with
+            # the reference parser: every field must arrive, and the bytes must be the canonical encoding of the model
+            ent = w.db[st["tx"] % len(w.db)]
+            if not ent["canonical"]:
+                continue
+            mt = ent["tx"]
             try:
-                TxFetcher.sendrawtransaction("00", network=st.get("net", "mainnet"))
-            except Exception:
-                pass
+                lib_tx = build_through_api(mt, ent["segwit"])
+                raw_hex = lib_tx.serialize().hex()
+                n0 = len(w.broadcasts)
+                TxFetcher.sendrawtransaction(raw_hex, network=st.get("net", "mainnet"))
+                out = "sent"
+            except SimDeadlock:
+                raise
+            except Exception as e:
+                out = "raised:" + type(e).__name__
+                fail("F2", "api_built_tx_not_serialisable", f"a transaction built through the API ({len(mt['ins'])} inputs, {len(mt['outs'])} outputs, segwit={ent['segwit']}) could not be serialised/sent: {type(e).__name__}: {e}")
+                continue
+            tr.ev("client", "broadcast", out)
+            tr.oracle("F2_api")
+            tr.probe("broadcasts")
+            if len(w.broadcasts) == n0 + 1:
+                body = w.broadcasts[-1][1]
+                try:
+                    got, sw = tm.parse_tx(bytes.fromhex(body.decode()), strict=True)
+                except Exception as e:
+                    fail("F2", "api_built_tx_unparsable", f"the explorer's strict parser rejects the bytes of an API-built transaction: {e}")
+                    continue
+                want = tm.clone(mt)
+                if not ent["segwit"]:
+                    for i_ in want["ins"]:
+                        i_["witness"] = []
+                if got != want:
+                    diff = [k for k in ("version", "locktime") if got[k] != want[k]] + (["ins"] if got["ins"] != want["ins"] else []) + (["outs"] if got["outs"] != want["outs"] else [])
+                    fail("F2", "api_built_tx_fields_differ", f"fields {diff} of an API-built transaction differ after serialise -> strict reference parse")
+                if lib_tx.id() != tm.txid(mt).hex():
+                    fail("F3", "api_built_txid", "id() of an API-built transaction is not the hash of its witness-stripped serialisation")
         else:
             raise ValueError(op)
     return {"db": [{"id": t["id"][:12], "segwit": t["segwit"], "canonical": t["canonical"], "ins": len(t["tx"]["ins"]), "outs": len(t["tx"]["outs"])} for t in w.db],
@@ -604,8 +675,10 @@ def generate(ch, tier, prop):
             if ch.chance(0.7):
                 steps.append({"op": "restart"})
                 steps.append({"op": "load"})
-        elif r < 0.92:
+        elif r < 0.90:
             steps.append({"op": "restart"})
+        elif r < 0.95:
+            steps.append({"op": "broadcast", "tx": ch.randrange(8), "net": ch.choice(["mainnet", "testnet", "signet"])})
         else:
             steps.append({"op": "load"})
     return {"db": db, "steps": steps}
